@@ -4,12 +4,16 @@ import (
 	"errors"
 	"math/rand"
 	"strings"
+	"sync"
 	"time"
 )
 
 const letters = "abcdefghijklmnopqrstuvwxyzABCDEFGHIJKLMNOPQRSTUVWXYZ0123456789_-"
 
-var randSource = rand.New(rand.NewSource(time.Now().UnixNano()))
+var (
+	randSourceMx sync.Mutex // rand.Rand is not goroutine safe
+	randSource   = rand.New(rand.NewSource(time.Now().UnixNano()))
+)
 
 func ParseStringFunc(shoot string) (string, []string, error) {
 	openIdx := strings.IndexRune(shoot, '(')
@@ -44,8 +48,10 @@ func RandStringRunes(n int64, s string) string {
 	}
 	var letterRunes = []rune(s)
 	b := make([]rune, n)
+	randSourceMx.Lock()
 	for i := range b {
 		b[i] = letterRunes[randSource.Intn(len(letterRunes))]
 	}
+	randSourceMx.Unlock()
 	return string(b)
 }
